@@ -1255,8 +1255,8 @@ V(id='c35-findpoly-own-maxcoeff', prop='C35', file='mpmath/identification.py',
   old="        a = ctx.pslq(xs, **kwargs)", new="        a = ctx.pslq(xs, kwargs.get('tol'), 10**6)",
   expect='fire:Q-R3:findpoly')
 V(id='c35-identify-leading-zero-allowed', prop='C35', file='mpmath/identification.py',
-  old="            if r is not None and max(abs(uw) for uw in r) <= M and r[0]:\n                s = pslqstring(r, constants)",
-  new="            if r is not None and max(abs(uw) for uw in r) <= M:\n                s = pslqstring(r, constants)",
+  old="            if r is not None and max(abs(uw) for uw in r) <= M and r[0] \\\n                and any(r[1:]):",
+  new="            if r is not None and max(abs(uw) for uw in r) <= M \\\n                and any(r[1:]):",
   expect='fire:Q-R4:identify')
 V(id='c35-identify-product-ungated', prop='C35', file='mpmath/identification.py',
   old="        if r is not None and max(abs(uw) for uw in r) <= M and r[0]:\n            addsolution(prodstring(r, logs))",
@@ -1749,3 +1749,15 @@ V(id='c43-slot-removed', prop='C43', file='mpmath/ctx_fp.py',
 V(id='c43-new-reciprocal-composition', prop='C43', file='mpmath/functions/functions.py',
   old="def acsch(ctx, z): return ctx.asinh(ctx.one / z)", new="def acsch(ctx, z): return ctx.asin(ctx.one / (ctx.j*z)) * ctx.j",
   expect='fire:F-R8:acsch')
+
+# ---- C35 Q-R5 / Q-R6 (fix 1733d24) ----
+V(id='c35-template-power-unparenthesised', prop='C35', file='mpmath/identification.py',
+  old="                    s = ftn.replace('$y', s).replace('$c**',\n                        _operand(cn, True) + '**').replace('$c', cn)",
+  new="                    s = ftn.replace('$y', s).replace('$c', cn)",
+  expect='fire:Q-R5:identify')
+V(id='c35-null-relation-printed', prop='C35', file='mpmath/identification.py',
+  old="and r[0] \\\n                and any(r[1:]):", new="and r[0]:",
+  expect='fire:Q-R6:identify')
+V(id='c35-linear-formula-unparenthesised', prop='C35', file='mpmath/identification.py',
+  old="    if '+' in s or '*' in s:\n        s = '(' + s + ')'\n    return s or '0'", new="    return s or '0'",
+  expect='fire:Q-R5:pslqstring')
